@@ -1,6 +1,6 @@
 """C03 Task lifecycle and callbacks are exact and ordered."""
 from asyncio_taskpool import TaskPool
-from engine.prog import Interp, act, drive, parts_product, select
+from engine.prog import Interp, act, drive, parts_product, select, site_of
 from engine.spec import Family
 from engine.world import Excluded, HarnessError, World
 
@@ -32,6 +32,15 @@ NOP = len(ALPHA) - 1
 
 
 def tpl_life(size, cb, n1, x2, a2, x3, a3, x4, a4, t, _twin=False):
+    return _life(size, cb, n1, x2, a2, 0, x3, a3, x4, a4, t, _twin)
+
+
+def tpl_lifesite(size, cb, n1, x2, a2, s2, x3, a3, t, _twin=False):
+    """Step 2 is issued from inside user code the pool runs: next worker start (1), end callback (2), cancel callback (3)."""
+    return _life(size, cb, n1, x2, a2, s2, x3, a3, NOP, 0, t, _twin)
+
+
+def _life(size, cb, n1, x2, a2, s2, x3, a3, x4, a4, t, _twin):
     w = World("c03.life")
     code = 0
     try:
@@ -54,14 +63,15 @@ def tpl_life(size, cb, n1, x2, a2, x3, a3, x4, a4, t, _twin=False):
         w.monitors.append(mon)
         try:
             it.apply(n1)
-            drive(w, it, ALPHA, [(NOP, 0), (x2, a2), (x3, a3), (x4, a4)], t, mon)
+            drive(w, it, ALPHA, [(NOP, 0), (x2, a2), (x3, a3), (x4, a4)], t, mon, site_of(s2))
         except Excluded as e:
             w.excluded = str(e)
         code = w.err
         if not code and not w.excluded:
             code = _final(w, pool, cb)
         if _twin and not code and not w.excluded:
-            if any(c[0] == "cancel" for c in w.cb) and any(c[0] == "end" for c in w.cb) and len(w.W) >= 2:
+            if any(c[0] == "cancel" for c in w.cb) and any(c[0] == "end" for c in w.cb) and len(w.W) >= 2 \
+                    and (s2 == 0 or not w.armed.get(site_of(s2))):
                 code = 77
         return code
     finally:
@@ -168,6 +178,16 @@ def families(tier):
     fams = [Family(name="life", fn="tpl_life", params=P, pre=pre, parts=parts,
                    twin_pre=["cb == 1", "n1 == 2", "x2 == 3", "x3 == 1", "x4 == %d" % NOP],
                    twin_args=[2, 1, 2, 3, 0, 1, 1, NOP, 0, 5])]
+    PS = ["size", "cb", "n1", "x2", "a2", "s2", "x3", "a3", "t"]
+    pres = ["size >= 0", "1 <= cb <= 3", "n1 == 2", "0 <= x2 < %d" % NOP, "a2 >= -1", "1 <= s2 <= 3", "0 <= x3 < %d" % NOP, "a3 >= -1", "t >= 0"]
+    if not thorough:
+        pres += ["cb == 3", "size >= 2", "t >= 4", "3 <= x2 <= 7", "x3 == 1 or x3 == 3", "a2 <= 1", "a3 <= 1"]
+        partss = parts_product(s2=(1, 2, 3), x3=(1, 3))
+    else:
+        pres += ["cb == 1 or cb == 3", "a2 <= 2", "a3 <= 2", "x3 == 1 or x3 == 3 or x3 == 6"]
+        partss = parts_product(cb=(1, 3), s2=(1, 2, 3), x2=range(NOP))
+    fams.append(Family(name="lifesite", fn="tpl_lifesite", params=PS, pre=pres, parts=partss,
+                       twin_pre=["cb == 3", "s2 == 2", "x2 == 3", "x3 == 1"], twin_args=[2, 3, 2, 3, 1, 2, 1, 0, 5]))
     basef = ["size >= 0", "2 <= cb <= 3", "n1 == 2", "0 <= x2 < %d" % NOPF, "a2 >= -1", "0 <= x3 <= %d" % NOPF, "a3 >= -1", "t >= 0"]
     if not thorough:
         pref = basef + ["x4 == %d" % NOPF, "a4 == 0", "cb == 3", "t >= 4", "x3 == 1 or x3 == 3 or x3 == 6 or x3 == 7"]
